@@ -1,3 +1,5 @@
+use proc_macro2::{Ident, Span, TokenStream, TokenTree};
+use quote::ToTokens;
 use syn::{DeriveInput, Path, Type};
 
 #[inline]
@@ -33,13 +35,17 @@ pub(crate) fn create_format_arg(
     // relevant for this field, which is nontrivial and maybe impossible.
     let (impl_generics, ty_generics, where_clause) = ast.generics.split_for_impl();
 
+    // The wrapper is an item, so its name is visible to everything the user wrote inside the
+    // type (generic parameters, field types, the method path): pick one that occurs nowhere in it.
+    let wrapper = fresh_ident(ast, "Educe__DebugField");
+
     quote!(
         let arg = {
             #[allow(non_camel_case_types)] // We're using __ to help avoid clashes.
-            struct Educe__DebugField<V, M>(V, ::core::marker::PhantomData<M>);
+            struct #wrapper<V, M>(V, ::core::marker::PhantomData<M>);
 
             impl #impl_generics ::core::fmt::Debug
-                for Educe__DebugField<&#field_ty, #ty_ident #ty_generics>
+                for #wrapper<&#field_ty, #ty_ident #ty_generics>
                 #where_clause
             {
                 #[inline]
@@ -48,7 +54,28 @@ pub(crate) fn create_format_arg(
                 }
             }
 
-            Educe__DebugField(#field_expr, ::core::marker::PhantomData::<Self>)
+            #wrapper(#field_expr, ::core::marker::PhantomData::<Self>)
         };
     )
+}
+
+/// An identifier starting with `base` that does not occur anywhere in the derive input.
+fn fresh_ident(ast: &DeriveInput, base: &str) -> Ident {
+    fn contains(token_stream: TokenStream, name: &str) -> bool {
+        token_stream.into_iter().any(|token| match token {
+            TokenTree::Ident(ident) => ident == name,
+            TokenTree::Group(group) => contains(group.stream(), name),
+            // paths may be given as string literals
+            TokenTree::Literal(literal) => literal.to_string().contains(name),
+            _ => false,
+        })
+    }
+
+    let mut name = String::from(base);
+
+    while contains(ast.to_token_stream(), &name) {
+        name.push('_');
+    }
+
+    Ident::new(&name, Span::mixed_site())
 }
